@@ -157,7 +157,7 @@ def run(ctx):
                 "accepted by a transient solve; distinct = (dim, inner, outer)")
     ctx.trusted = ["Lean 4 kernel + Mathlib (propext, Classical.choice, Quot.sound)",
                    "harness/thermal_common.py capture of the real step system",
-                   "order of accuracy of the discrete profile against ln r is measured, not proved (midpoint_log is stated in DESIGN as stretch)"]
+                   "the effect of the dr/2 wall-radius offset on flux/convective pairings is measured (order of accuracy), the closeness of the profile sum to ln r is proved (profile_vs_log)"]
     ctx.assumptions = ["constant material, time-constant data"]
     thm_ok = common.lean_stage(ctx, [("SrProps.C13", "SrProps/C13.lean", "SrProps.C13")])
     rng = ctx.rng
